@@ -376,8 +376,9 @@ def run(spec, ctx):
                         n += 1
                         if t == 0x81:
                             nt += 1
+                            ctx.trail.append(frame)
                         for s, m in fails:
-                            ctx.fail(dict(k="recv", b=frame.hex()), s, m)
+                            ctx.fail(dict(k="recv", b=frame.hex()), s, m, trail_case=lambda x: dict(k="recv", b=x.hex()))
         ctx.bulk(n, nt, "recv:header-space", dict(k="recv", b="81050007001e"))
         ctx.mark_exhaustive("type x function x length-field header space, types %d..%d" % (spec["types"][0], spec["types"][1] - 1))
     elif kind == "strings":
@@ -393,8 +394,9 @@ def run(spec, ctx):
             n += 1
             if b[:1] == b"\x81":
                 nt += 1
+                ctx.trail.append(b)
             for s, m in fails:
-                ctx.fail(dict(k="recv", b=b.hex()), s, m)
+                ctx.fail(dict(k="recv", b=b.hex()), s, m, trail_case=lambda x: dict(k="recv", b=x.hex()))
         ctx.bulk(n, nt, "recv:short", dict(k="recv", b="8100"))
         ctx.mark_exhaustive("all octet strings of length %s" % ("3 (slice)" if "first_hi" in spec else "<= %d" % L_))
     elif kind == "strings81":
